@@ -1067,6 +1067,10 @@ func (d *indexData) newMatchTree(q query.Q, opt matchTreeOpt) (matchTree, error)
 		}, err
 
 	case *query.Type:
+		if s.Type == query.TypeFileMatch {
+			// The default result type: the content matches of the child.
+			return d.newMatchTree(s.Child, opt)
+		}
 		if s.Type != query.TypeFileName {
 			break
 		}
